@@ -94,39 +94,39 @@ Section Opaque.
             rewrite app_assoc. rewrite last_app_ne by discriminate.
             assert (Hin : In (last (y :: s0') 0) (y :: s0')).
             { rewrite (app_removelast_last 0 (l := y :: s0')) at 2 by discriminate. apply in_or_app. right. left. reflexivity. }
-            rewrite forallb_forall in Hs0p. apply Hs0p in Hin. unfold printable in Hin. unfold vis. lia. }
+            rewrite forallb_forall in Hs0p. apply Hs0p in Hin. apply printable_nonspace_vis; assumption. }
     apply (Parse_of_finishes idna_raw c s _ Hrep Hfail Hne Hprint Hhd Hlast).
     (* the run *)
     assert (Hr0 : rest_from (map Good s) 0 = u_scheme u ++ 58 :: s0 ++ q_tail oq ++ f_tail of).
     { rewrite rest_map_good, <- Hs. reflexivity. }
     pose proof (len_nonneg (u_scheme u)) as Hlen.
     assert (Hlen1 : (1 <= len (u_scheme u))%Z).
-    { destruct (u_scheme u); [congruence|]. rewrite len_cons. pose proof (len_nonneg l). lia. }
+    { apply len_pos. exact Sne. }
     eapply (reaches_finishes idna_raw c Hrep Hfail).
     { apply (scheme_phase idna_raw c Hrep Hfail _ _ _ false false false _ Hr0 Hsch). }
-    pose proof (rest_app _ 0%Z _ _ ltac:(lia) Hr0) as Hr1.
+    pose proof (rest_app _ 0%Z _ _ ltac:(blia) Hr0) as Hr1.
     replace (0 + len (u_scheme u))%Z with (len (u_scheme u) - 1 + 1)%Z in Hr1 by ring.
     eapply (reaches_finishes idna_raw c Hrep Hfail).
-    { eapply (reaches_step idna_raw c Hrep Hfail); [|reflexivity].
-      rewrite (step_scheme_colon idna_raw c Hrep Hfail _ (len (u_scheme u) - 1)%Z _ _ _ _ _ _ ltac:(lia) Hr1).
-      rewrite Hnf, Hnsp.
-      replace (has_prefix [47] (s0 ++ q_tail oq ++ f_tail of)) with false; [reflexivity|].
-      destruct s0 as [|y s0']; [|symmetry; exact Hnoslash].
-      destruct oq; [reflexivity|]. destruct of; reflexivity. }
-    destruct (rest_uncons _ _ _ _ ltac:(lia) Hr1) as [_ [Hr2 _]].
+    { eapply (reaches_step idna_raw c Hrep Hfail).
+      - rewrite (step_scheme_colon idna_raw c Hrep Hfail _ (len (u_scheme u) - 1)%Z _ _ _ _ _ _ ltac:(blia) Hr1).
+        rewrite Hnf, Hnsp.
+        replace (has_prefix [47] (s0 ++ q_tail oq ++ f_tail of)) with false; [reflexivity|].
+        destruct s0 as [|y s0']; [|symmetry; exact Hnoslash].
+        destruct oq; [reflexivity|]. destruct of; reflexivity.
+      - reflexivity. }
+    destruct (rest_uncons _ (len (u_scheme u) - 1 + 1)%Z _ _ ltac:(blia) Hr1) as [_ [Hr2 _]].
     eapply (finishes_eq idna_raw c Hrep Hfail).
     { apply (opaque_path_phase idna_raw c Hrep Hfail _ (len (u_scheme u) - 1 + 1)%Z false false false _ s0 oq of
                (R_sp c R)); try reflexivity.
       - apply (R_queryset c _ R).
-      - lia.
+      - blia.
       - exact Hr2.
       - apply opq_chars; assumption.
       - exact Hq.
       - exact Hf. }
     unfold rt_url. fold oq of. rewrite Huser, Hpass, Hhost, Hport, Hdp, Hpath, Ho.
-    idtac "before final".
-    Time (destruct oq, of; reflexivity).
-  Time Qed.
+    destruct oq, of; reflexivity.
+  Qed.
 End Opaque.
 
 Print Assumptions roundtrip_opaque.
